@@ -148,5 +148,37 @@ Proof.
     refine (NL _ _ _ _ _). eauto 10 using step_trans.
 Qed.
 
+(* ---- Request::parse_with_config as translated (take self.headers, cast, call the core, restore unless
+   Complete) = Api.request_with_config ---- *)
+Definition fin_reqw (r : ires L_g_request_with_config nat unit nat) : rq_res :=
+  let rq l := mkreq (g_request_with_config_self_method l) (g_request_with_config_self_path l)
+                    (g_request_with_config_self_version l) (g_request_with_config_self_headers l) in
+  match r with
+  | IDone n l _ => (Complete n, rq l, g_request_with_config_v_mem l)
+  | IPart l => (Partial, rq l, g_request_with_config_v_mem l)
+  | IFail e l => (Error e, rq l, g_request_with_config_v_mem l)
+  | IFault f l => (Faulted f, rq l, g_request_with_config_v_mem l)
+  | IExc _ l _ => (Faulted Unreachable, rq l, g_request_with_config_v_mem l)
+  end.
+
+Theorem tie_request_with_config cf buf rq x y :
+  fin_reqw (ifun (g_request_with_config_body E (S (length buf)) cf buf)
+                 (g_request_with_config_init (q_method rq) (q_path rq) (q_version rq) (q_hdrs rq) x y)
+                 (cur_new buf))
+  = request_with_config E cf buf rq.
+Proof.
+  destruct rq as [m0 p0 v0 h0]. unfold request_with_config. cbn [q_method q_path q_version q_hdrs].
+  rewrite <- (tie_request_core cf buf (mkreq m0 p0 v0 []) h0). cbn [q_method q_path q_version q_hdrs].
+  unfold g_request_with_config_body, g_request_with_config_init.
+  cbv beta iota delta [ifun ibind iget iset isub_catch iret ireturn ithrow ipart ifail
+                       set_g_request_with_config_v_mem set_g_request_with_config_self_headers
+                       set_g_request_with_config_v_headers
+                       g_request_with_config_self_method g_request_with_config_self_path
+                       g_request_with_config_self_version g_request_with_config_self_headers
+                       g_request_with_config_v_headers g_request_with_config_v_mem].
+  match goal with |- context [g_request_core_body E (S (length buf)) cf buf ?l0 (cur_new buf)] =>
+    destruct (g_request_core_body E (S (length buf)) cf buf l0 (cur_new buf)) as [n l c|l|e l|f l|[k v|k|r] l c] end;
+    cbn [fin_req fin_reqw]; reflexivity.
+Qed.
 
 End ApiTie.
